@@ -814,7 +814,17 @@ fn do_call<K: TKey>(e: &mut Enr<K>, m: &str, args: &Value, signer: &K) -> Value 
 
 fn do_build<K: TKey>(step: &Value, signer: &K) -> Result<Enr<K>, EnrError> {
     let mut b = Enr::<K>::builder();
-    for c in get(step, "calls").as_array().map(|a| a.as_slice()).unwrap_or(&[]) {
+    apply_builder_calls(&mut b, get(step, "calls"));
+    // the same builder may be used again: `rebuild` = build once more after applying `calls2`
+    if get(step, "rebuild").as_bool().unwrap_or(false) {
+        let _first = b.build(signer);
+        apply_builder_calls(&mut b, get(step, "calls2"));
+    }
+    b.build(signer)
+}
+
+fn apply_builder_calls<K: TKey>(b: &mut enr::Builder<K>, calls: &Value) {
+    for c in calls.as_array().map(|a| a.as_slice()).unwrap_or(&[]) {
         let m = get(c, "m").as_str().expect("m");
         match m {
             "seq" => {
@@ -871,7 +881,6 @@ fn do_build<K: TKey>(step: &Value, signer: &K) -> Result<Enr<K>, EnrError> {
             _ => panic!("unknown builder method {}", m),
         }
     }
-    b.build(signer)
 }
 
 fn signs_json(traced: bool) -> Value {
@@ -1244,7 +1253,12 @@ impl<W: Write> Exec<W> {
         m.insert("signer".into(), json!(signer));
         m.insert("spk".into(), signer_pub_json(&signer));
         m.insert("fault".into(), json!(fault));
-        m.insert("calls".into(), get(step, "calls").clone());
+        let mut all_calls = get(step, "calls").as_array().cloned().unwrap_or_default();
+        if get(step, "rebuild").as_bool().unwrap_or(false) {
+            all_calls.extend(get(step, "calls2").as_array().cloned().unwrap_or_default());
+        }
+        m.insert("calls".into(), Value::Array(all_calls));
+        m.insert("rebuild".into(), json!(get(step, "rebuild").as_bool().unwrap_or(false)));
         m.insert("out".into(), out);
         m.insert("signs".into(), signs);
         m.insert("post".into(), json!(post));
